@@ -173,6 +173,9 @@ def pipeline_world(variant):
     for i in range(6):
         reads.append(W.read_of("h1_%d" % i, "chr1", [mix.G6_EXONS[k] for k in (0, 2, 3)]))
         reads.append(W.read_of("h2_%d" % i, "chr1", [mix.G6_EXONS[k] for k in (4, 6, 7)]))
+        # reads of the annotated isoform T8 itself, again in two disjoint clusters (exons 1-4 / 5-8): the reference id is reported once
+        reads.append(W.read_of("f1_%d" % i, "chr1", [mix.G6_EXONS[k] for k in (0, 1, 2, 3)], polya=False))
+        reads.append(W.read_of("f2_%d" % i, "chr1", [mix.G6_EXONS[k] for k in (4, 5, 6, 7)]))
     if variant == "extra":
         nov_e = W.exons(1000, [1, 2, 3, 4, 5])
         W.add_sites_for_blocks(w, "chr1", nov_e, "+")
@@ -220,9 +223,9 @@ def gtf_id_errors(path, ref_transcripts=None, ref_genes=None, exon_table=None, l
 
 
 READ_SETS = {"all": None,
-             "R0": ("k1", "k4", "na", "nd", "ig1", "h1"),
-             "R1": ("k1", "k4", "nb", "ig2", "h2"),
-             "R2": ("k1", "k4", "nc", "ne", "ig1", "ig2")}
+             "R0": ("k1", "k4", "na", "nd", "ig1", "h1", "f1", "f2"),
+             "R1": ("k1", "k4", "nb", "ig2", "h2", "f1"),
+             "R2": ("k1", "k4", "nc", "ne", "ig1", "ig2", "f2")}
 
 
 def pipeline_case(args):
